@@ -2,7 +2,7 @@
 from ..facts import AnchorMissing, callee_def, op_place, op_const, is_bare
 from ..util import (SUBR, RTRAIT, ends, field_accesses, site, fn_key, callee_method, require,
                     edge_is_true, src_field, has_call, has_field, final_uses, field_reads,
-                    edges_where, unreachable_without_edges)
+                    edges_where, unreachable_without_edges, origin)
 
 EXPLANATION = (
     "Static decision of three clauses: (A) the width==0 test of render_with_context dominates every "
@@ -12,8 +12,10 @@ EXPLANATION = (
     "option; (C) non-interference: the flag is read nowhere else, and at each decision read the "
     "not-allowed edge leads to Err(TooNarrow) without any side effect, so a rendering that succeeds "
     "without the option never reaches a read of the flag and runs identically with it.")
-NOT_DECIDED = ("clause 4 (how far an overflowing line may exceed the width); 'always succeeds' additionally "
-               "relies on C01 (no panic/hang, no other error)")
+NOT_DECIDED = ("clause 4 (how far an overflowing line may exceed the width) as a whole; only its structural part D is decided: "
+               "the minimum widths that calc_size_estimate creates itself are a constant <= 5, min(_, min_wrap_width), or the "
+               "width of the prefix it also records as prefix_size. 'always succeeds' additionally relies on C01 (no "
+               "panic/hang, no other error)")
 ASSUMPTIONS = []
 
 FLAG_FIELDS = [("config::Config", "allow_width_overflow"), ("HtmlContext", "allow_width_overflow"),
@@ -27,7 +29,9 @@ def check(ctx):
              "read of the overflow flag (inventory complete; flag storage written only from the option)")
     ctx.rule("C11-C", "the overflow flag is read only as plumbing or as a decision whose not-allowed edge leads to "
              "Err(TooNarrow) without side effects")
-    for rid, fn in (("C11-A", rule_a), ("C11-B", rule_b), ("C11-C", rule_c)):
+    ctx.rule("C11-D", "bound clause, structural part: every SizeEstimate that RenderNode::calc_size_estimate builds itself has "
+             "min_width = a constant <= 5, min(_, context.min_wrap_width), or the prefix width it also stores as prefix_size")
+    for rid, fn in (("C11-A", rule_a), ("C11-B", rule_b), ("C11-C", rule_c), ("C11-D", rule_d)):
         ctx.guard(rid, fn)
 
 
@@ -215,3 +219,46 @@ def rule_c(ctx):
                     ctx.violation("C11-C", key + ":use-as-%s" % kind, s, b.id,
                                   "the overflow flag may only be branched on or copied; found use as %s" % kind)
     ctx.floor("C11-C", "decision reads of the overflow flag", ndec, 2)
+
+
+def rule_d(ctx):
+    """What width_minus may inflate a sub-block to is the block's min_width estimate; for a table-free document
+    those are sums of prefix widths plus the largest leaf minimum.  The bound max(w, P + max(min_wrap_width, 5))
+    needs every leaf minimum to be <= max(min_wrap_width, 5)."""
+    F = ctx.facts
+    b = F.one("RenderNode::calc_size_estimate")
+    # values stored into some `.prefix_size`
+    prefix_vals = set()
+    for bb in b.reachable():
+        for st in b.stmts(bb):
+            if st["k"] == "assign" and any(isinstance(e, dict) and "f" in e and e["n"] == "prefix_size" for e in st["lhs"]["p"]):
+                rv = st.get("rv") or {}
+                if "use" in rv:
+                    prefix_vals.add(b.canon(rv["use"]))
+    n = 0
+    kinds = {}
+    for bb in sorted(b.reachable()):
+        for st in b.stmts(bb):
+            rv = st.get("rv") or {}
+            if not (rv.get("agg") == "adt" and rv.get("adt") == "SizeEstimate" and "min_width" in rv.get("fields", [])):
+                continue
+            n += 1
+            op = rv["ops"][rv["fields"].index("min_width")]
+            k = op_const(op)
+            o = origin(b, op)
+            kind = None
+            if k is not None and isinstance(k.get("int"), int) and k["int"] <= 5:
+                kind = "const<=5"
+            elif o and o[0] == "call" and callee_method(o[1]) == "min" and any(
+                    has_field(b.atoms(a, through_calls=False), "HtmlContext", "min_wrap_width") and
+                    (origin(b, a) or (None,))[0] == "place" for a in o[1]["args"]):
+                kind = "min(_, min_wrap_width)"
+            elif b.canon(op) in prefix_vals:
+                kind = "prefix width"
+            kinds[kind] = kinds.get(kind, 0) + 1
+            ctx.check(kind is not None, "C11-D", "calc_size_estimate:min_width#%s" % b.canon(op)[:60], st["span"], b.id,
+                      "a minimum width created here is neither a constant <= 5, nor min(_, context.min_wrap_width), nor the "
+                      "prefix width recorded as prefix_size: with allow_width_overflow a narrow block may be inflated beyond "
+                      "max(width, prefix + max(min_wrap_width, 5)); value: %s" % b.expr_top(op))
+    ctx.info("C11-D", "SizeEstimate constructions by kind: %s" % kinds)
+    ctx.floor("C11-D", "SizeEstimate constructions in calc_size_estimate", n, 6)
